@@ -204,14 +204,16 @@ def run(plan):
     elif kind == 'CHECKPOINT':
       t = va.clock(named_leaves(sa))
       durable[t] = (A.to_bytes(sa), B.to_bytes(sb), A.D,
-                    P.to_bytes(sp) if P else None, set(poisoned))
+                    P.to_bytes(sp) if P else None, set(poisoned),
+                    set(ctx.__dict__.get('_c13_taint', ())))
     elif kind in ('CRASH_RESTORE', 'RESCALE'):
       if not durable or mode == 'sharded' and kind == 'RESCALE':
         continue
       keys = sorted(durable)
       k = keys[int(op.get('which', -1)) % len(keys)]
-      da, db, Dold, dp, pz = durable[k]
+      da, db, Dold, dp, pz, tz = durable[k]
       poisoned = set(pz)
+      ctx.__dict__['_c13_taint'] = set(tz)
       A0 = DSWorld(plan, D=Dold) if mode != 'sharded' else DSWorld(
           dict(plan, mesh=_mesh_for(N, D)), D=D)
       st0 = A0.from_bytes(A0.init(params), da)
@@ -255,15 +257,17 @@ def _compare_worlds(ctx, rep, t, D, va, vb, na, nb, upa, upb, cfg, uc, A,
       continue
     # statistics and first-order state: same arithmetic on every replica count
     ma, mb = va.model_state(na, i), vb.model_state(nb, i)
-    for name in ('diag', 'mom', 'dmom'):
-      x, y = ma[name], mb[name]
-      if x is None or np.ndim(x) == 0 and name == 'diag':
-        continue
-      # int8 momenta: the two worlds may round to neighbouring buckets
-      qtol = 1.5 / 127 if (cfg.get('best_effort_memory_usage_reduction') and
-                           name in ('mom', 'dmom') and
-                           len(leaf['shape']) > 1) else 0.0
-      _close(ctx, 'd_invariant', rep, t, D, i, name, x, y, 2e-3 + qtol, np)
+    def first_order(names):
+      for name in names:
+        x, y = ma[name], mb[name]
+        if x is None or np.ndim(x) == 0 and name == 'diag':
+          continue
+        # int8 momenta: the two worlds may round to neighbouring buckets
+        qtol = 1.5 / 127 if (cfg.get('best_effort_memory_usage_reduction') and
+                             name in ('mom', 'dmom') and
+                             len(leaf['shape']) > 1) else 0.0
+        _close(ctx, 'd_invariant', rep, t, D, i, name, x, y, 2e-3 + qtol, np)
+    first_order(('diag',))
     amp_bad = False
     for j, (bi, ax, d) in enumerate(leaf['stats']):
       Sa, Sb = ma['stats'][j], mb['stats'][j]
@@ -310,21 +314,52 @@ def _compare_worlds(ctx, rep, t, D, va, vb, na, nb, upa, upb, cfg, uc, A,
         ctx.ev('d_invariant_root', 'vacuous')
         amp_bad = True
         continue
-      w = np.linalg.eigvalsh(0.5 * (Sa + Sa.T)) if Sa.size else np.ones(1)
-      lo = max(float(w[0]), 0.0) + float(cfg.get('matrix_epsilon', 1e-6)) * (
-          max(float(w[-1]), 1e-6) if cfg.get('relative_matrix_epsilon', True)
-          else 1.0) * 1e-6
-      kappa = float(w[-1]) / lo if lo > 0 else float('inf')
-      rel = 16 * u32 + 256 * uc * kappa
-      # the two worlds' statistics evolve separately (rounding of different
-      # compiled programs, int16 re-quantization): a relative difference in S
-      # is amplified by the condition number in the root
-      scS = float(np.max(np.abs(Sb))) if Sb.size else 0.0
-      relS = float(np.max(np.abs(Sa - Sb))) / scS if scS > 0 else 0.0
-      rel += 4.0 * kappa * relS
-      if cfg.get('best_effort_memory_usage_reduction'):
-        rel += 4.0 / 32767
-      if not np.isfinite(rel) or rel > 1e-2:
+      # The tolerance belongs to the statistic the stored root was computed
+      # from. A root is only replaced on refresh ticks, so while both worlds'
+      # roots are byte-identical to the last comparison the tolerance (or the
+      # vacuous verdict) of that comparison is reused: the statistic of a later
+      # tick may be far better conditioned than the one behind the root.
+      mem = ctx.__dict__.setdefault('_c13_rootmem', {})
+      mkey = (rep, i, j)
+      sig = (np.asarray(Xa).tobytes(), np.asarray(Xb).tobytes())
+      if (mkey, sig) in mem:
+        # (keyed by the bytes, so that a restored checkpoint finds the verdict
+        # of the tick its roots were computed at)
+        rel, gap_bad = mem[(mkey, sig)]
+        ctx.probe('root_tolerance_reused')
+      else:
+        rel, gap_bad = 0.0, False
+        for S_ in (Sa,):
+          if not np.all(np.isfinite(S_)):
+            rel = float('inf')
+            continue
+          w = np.linalg.eigvalsh(0.5 * (S_ + S_.T)) if S_.size else np.ones(1)
+          lo = max(float(w[0]), 0.0) + float(cfg.get('matrix_epsilon', 1e-6)) * (
+              max(float(w[-1]), 1e-6) if cfg.get('relative_matrix_epsilon', True)
+              else 1.0) * 1e-6
+          kappa = float(w[-1]) / lo if lo > 0 else float('inf')
+          r_ = 16 * u32 + 256 * uc * kappa
+          # the two worlds' statistics evolve separately (rounding of different
+          # compiled programs, int16 re-quantization): a relative difference in
+          # S is amplified by the condition number in the root
+          scS = float(np.max(np.abs(Sb))) if Sb.size else 0.0
+          relS = float(np.max(np.abs(Sa - Sb))) / scS if scS > 0 else 0.0
+          r_ += 4.0 * kappa * max(relS, u32)
+          if cfg.get('best_effort_memory_usage_reduction'):
+            r_ += 4.0 / 32767
+          rel = max(rel, r_)
+          if cfg.get('compression_rank') and Xa.shape[0] != Xa.shape[1]:
+            # the retained eigen-directions are only defined up to the spectral
+            # gap at the cut: without a gap two compiled programs may
+            # legitimately pick different vectors of a degenerate eigenspace
+            rr = int(cfg['compression_rank'])
+            srt = w[::-1] if rr > 0 else w
+            kk = abs(rr)
+            if kk < len(srt) and abs(srt[kk - 1] - srt[kk]) < 1e-3 * max(
+                float(w[-1]), 1e-30):
+              gap_bad = True
+        mem[(mkey, sig)] = (rel, gap_bad)
+      if not np.isfinite(rel) or rel > 1e-2 or gap_bad:
         ctx.ev('d_invariant_root', 'vacuous')
         amp_bad = True
         continue
@@ -332,17 +367,6 @@ def _compare_worlds(ctx, rep, t, D, va, vb, na, nb, upa, upb, cfg, uc, A,
         ctx.violate('d_invariant', rep, 'root_shape', tick=t, leaf=i, stat=j)
         continue
       if cfg.get('compression_rank') and Xa.shape[0] != Xa.shape[1]:
-        # the retained eigen-directions are only defined up to the spectral gap
-        # at the cut: without a gap two compiled programs may legitimately pick
-        # different vectors of a degenerate eigenspace
-        rr = int(cfg['compression_rank'])
-        srt = w[::-1] if rr > 0 else w
-        kk = abs(rr)
-        if kk < len(srt) and abs(srt[kk - 1] - srt[kk]) < 1e-3 * max(
-            float(w[-1]), 1e-30):
-          ctx.ev('d_invariant_root', 'vacuous')
-          amp_bad = True
-          continue
         da = ref.dense_from_packed(Xa, cfg['compression_rank'])
         db = ref.dense_from_packed(Xb, cfg['compression_rank'])
         if da is None or db is None:
@@ -363,11 +387,20 @@ def _compare_worlds(ctx, rep, t, D, va, vb, na, nb, upa, upb, cfg, uc, A,
         ctx.ev('d_invariant_root', 'violation')
       else:
         ctx.ev('d_invariant_root', 'ok', diff / (rel * max(sc, 1e-300)))
-    # updates
-    x, y = np.asarray(upa[i], np.float64), np.asarray(upb[i], np.float64)
+    # momenta and updates pass through the roots: where a root in use is too
+    # ill-conditioned to be compared (its statistic was rank deficient, say),
+    # the two worlds' preconditioned gradients legitimately differ by the same
+    # amplification, and the momentum carries that difference forward
+    taint = ctx.__dict__.setdefault('_c13_taint', set())
     if amp_bad:
+      taint.add((rep, i))
+    if (rep, i) in taint:
+      ctx.ev('d_invariant', 'vacuous')
       ctx.ev('d_invariant_update', 'vacuous')
+      ctx.probe('ill_conditioned_root_mutes_momentum')
       continue
+    first_order(('mom', 'dmom'))
+    x, y = np.asarray(upa[i], np.float64), np.asarray(upb[i], np.float64)
     _close(ctx, 'd_invariant_update', rep, t, D, i, 'update', x, y,
            5e-3 + (1.5 / 127 if cfg.get('best_effort_memory_usage_reduction')
                    and len(leaf['shape']) > 1 else 0.0), np)
